@@ -10,7 +10,9 @@ from vlib import core, oracles, grammar, explore
 
 FRAGS = ['a', 'é', '€', 'ß', '\\', 'n', "'", ';', ' ', '\r\n', '\n', 'x', 'select', '﻿', 'я', '中', '"', '--', '\r',
          '\\x', 'u00e9']
-ENCODINGS = ['utf-8', 'latin-1', 'cp1252', 'cp1251', 'gbk', 'utf-16', 'utf-8-sig']
+ENCODINGS = ['utf-8', 'latin-1', 'cp1252', 'cp1251', 'gbk', 'utf-16', 'utf-8-sig',
+             # encodings whose bytes are 7-bit clean but are not ASCII: the encoding argument must be honoured
+             'utf-16-le', 'utf-32-be', 'utf-7', 'hz', 'iso2022_jp', 'cp037']
 FORMAT_OPTS = [{}, {'reindent': True, 'keyword_case': 'upper'}, {'strip_comments': True, 'strip_whitespace': True}]
 
 
